@@ -349,7 +349,7 @@ def parse_tlc_output(res):
         res.deadlock = True
         res.violated_name = "Deadlock"
         res.violation = "deadlock"
-    m3 = re.search(r"Error: The postcondition .* is violated|Error: Evaluating .*postcondition", out)
+    m3 = re.search(r"Error: The postcondition .* is violated|Error: Evaluating .*postcondition|Error: Postcondition \S+ .* is false", out)
     if m3:
         res.violated_name = "PostCondition"
         res.violation = "postcondition"
